@@ -572,6 +572,17 @@ pub mod rewrite {
       imported_module_loc: dummy_location,
     });
     compute_module_diff_edits(&state.heap, module_reference, ast, &changed_ast)
+      .into_iter()
+      .map(|(loc, text)| {
+        // An import appended after the existing ones starts on a line of its own. Otherwise it is
+        // glued to the previous import (or swallowed by a trailing line comment).
+        if loc.start == loc.end && loc.start != Location::document_start(module_reference).start {
+          (loc, format!("\n{text}"))
+        } else {
+          (loc, text)
+        }
+      })
+      .collect()
   }
 }
 
